@@ -3,8 +3,11 @@ to the real KubeEventsManager / monitor / informers on kube-client's fake cluste
 
 Oracle: at every quiet point (informers started, nothing pending) Monitor.Snapshot() holds exactly the cluster's
 objects of the watched namespaces, each once, ordered by namespace and name, with the jqFilter result attached;
-also after Restart. Not covered here: namespace.labelSelector bindings (the fake cluster does not honour label
-selectors on watches), the includeSnapshotsFrom / group key rules (covered by the C09 and C10 checks).
+also after Restart; one third of the histories use a filter on a field that never changes, so that every modification
+takes the "projection unchanged" path and the snapshot must still show the new object. The keys of `snapshots` are
+checked for all 512 group / includeSnapshotsFrom topologies of two kubernetes bindings and a schedule binding
+(spec/Snapshot/SnapKeys.tla) through the real loader and HookController.UpdateSnapshots.
+Not covered here: namespace.labelSelector bindings (the fake cluster does not honour label selectors on watches).
 """
 import ast
 import glob
@@ -49,7 +52,7 @@ def check_c02(ctx):
     ctx.log("TLC: the code-as-is model deviates from the cluster only by the ghost of a preloaded-then-deleted object (%d states)" % r2["distinct"])
     binary = vlib.go_build(ctx, "snap")
     behs = gen(ctx, ctx.pick(250, 3000), 40)
-    cases = [{"filter": i % 2 == 1, "steps": b} for i, b in enumerate(behs)]
+    cases = [{"filter": i % 3 != 0, "const": i % 3 == 2, "steps": b} for i, b in enumerate(behs)]
     inp, outp = ctx.path("snap_in.jsonl"), ctx.path("snap_out.jsonl")
     vlib.write_jsonl(inp, cases)
     rr = vlib.run_bin(ctx, binary, ["-in", inp, "-out", outp], timeout=1800)
@@ -67,8 +70,29 @@ def check_c02(ctx):
             else:
                 ctx.notes.append("DIVERGENCE %s: %s" % (o["sig"], o["detail"][:300]))
     ctx.log("replayed %d histories on the real KubeEventsManager (fake cluster): %d quiet points compared" % (len(cases), quiet))
-    ctx.cov["traces_validated_against_impl"] = len(cases)
-    ctx.cov["evaluations"] = len(cases)
+    # keys of `snapshots`: all group / includeSnapshotsFrom topologies of 2 kubernetes bindings + 1 schedule binding
+    kt = vlib.tlc(ctx, SPEC, "SnapKeys", "Keys.cfg", timeout=300, expect_violation=False, workers=2)
+    topos = kt["prints"]
+    if len(topos) != 512:
+        raise Infra("SnapKeys: %d topologies instead of 512" % len(topos))
+    kin, kout = ctx.path("keys_in.jsonl"), ctx.path("keys_out.jsonl")
+    vlib.write_jsonl(kin, topos)
+    kr = vlib.run_bin(ctx, binary, ["-mode", "keys", "-in", kin, "-out", kout], timeout=900)
+    if kr["rc"] != 0:
+        raise Infra("snap keys failed: " + kr["stderr"][-1500:])
+    kres = vlib.read_jsonl(kout)
+    if len(kres) != len(topos):
+        raise Infra("snap keys: %d results for %d topologies" % (len(kres), len(topos)))
+    for t, o in zip(topos, kres):
+        if not o["ok"]:
+            if o["sig"].startswith("C02/"):
+                ctx.fail(o["sig"], o["detail"], {"topology": t})
+            else:
+                ctx.notes.append("DIVERGENCE %s: %s" % (o["sig"], o["detail"][:300]))
+    ctx.log("snapshot keys: %d topologies (exhaustive) through the real loader + HookController.UpdateSnapshots" % len(topos))
+    ctx.cov["topologies"] = len(topos)
+    ctx.cov["traces_validated_against_impl"] = len(cases) + len(topos)
+    ctx.cov["evaluations"] = len(cases) + len(topos)
     ctx.cov["quiet_points"] = quiet
     ctx.cov["distinct_nontrivial"] = len({json.dumps([s["act"] for s in c["steps"]]) + json.dumps(c["steps"][0]["cluster"], sort_keys=True) for c in cases})
     ctx.sample({"initial": cases[0]["steps"][0]["cluster"], "actions": [s["act"] for s in cases[0]["steps"][1:]]})
